@@ -126,5 +126,196 @@ theorem decode_nf (p : Bytes) :
     simp only [hc, if_false, Bool.false_eq_true]
     cases ht : Spec.msgTypeOf p <;> simp_all [vendorArm_eq]
 
+/-! ### normal form of `process` -/
+
+theorem process_nf (c : Ctx) (p buf : Bytes) :
+    process c p buf =
+      if p.length < 10 ∨ Spec.hdrOk p = false then (c, .err (.invalid, .unknown), buf)
+      else if Spec.isControl p then
+        match getCtrl (p.drop 9) (calcPec p) with
+        | .err e => (c, .err e, buf)
+        | .panic k => (c, .panic k, buf)
+        | .ok ctl =>
+          if ctl.isReq then
+            let r := dispatch c ctl.cmd (byteAt p 6) (fun i => byteAt p (9 + ctl.off + i)) buf
+            (r.1, r.2.1.map (fun n => ((MsgType.control, 9 + ctl.off, ctl.dataLen), some n)), r.2.2)
+          else (c, .ok ((.control, 9 + ctl.off, ctl.dataLen), none), buf)
+      else if Spec.pecOk p then (c, .ok ((Spec.msgTypeOf p, 9, p.length - 10), none), buf)
+      else (c, .err (Spec.msgTypeOf p, .ctl .pec), buf) := by
+  unfold process
+  rw [decode_nf]
+  by_cases h1 : p.length < 10 ∨ Spec.hdrOk p = false
+  · simp only [h1, if_true]
+  simp only [h1, if_false]
+  have h10 : 10 ≤ p.length := by omega
+  have hh : Spec.hdrOk p = true := by
+    cases h : Spec.hdrOk p <;> simp_all
+  by_cases hc : Spec.isControl p = true
+  · simp only [hc, if_true]
+    have hg : getHeaders p = .ok () := by
+      rw [getHeaders_eq]; simp [hh]; omega
+    cases hgc : getCtrl (p.drop 9) (calcPec p) with
+    | err e => simp
+    | panic k => simp
+    | ok ctl =>
+      simp only [Out.bind_ok, hg, srcEid_eq p (by omega)]
+      by_cases hr : ctl.isReq = true
+      · simp only [hr, if_true]
+        rcases hd : dispatch c ctl.cmd (byteAt p 6) (fun i => byteAt p (9 + ctl.off + i)) buf with ⟨c', r, b'⟩
+        cases r <;> simp [Out.map]
+      · simp [hr]
+  · simp only [hc, if_false, Bool.false_eq_true]
+    by_cases hp : Spec.pecOk p = true
+    · simp only [hp, if_true]
+      have h1 := msgTypeOf_ne_invalid p hh
+      have h2 := mt (msgTypeOf_control_iff p).mp hc
+      cases ht : Spec.msgTypeOf p <;> simp_all
+    · simp [hp]
+
+/-! ### encoder calls -/
+
+theorem encode_of_body (c : Ctx) (dst : B) (e : Enc) (buf : Bytes) (t : MsgType) (h : Option Bytes) (d : Bytes)
+    (hb : e.body c = .ok (t, h, d)) (hs : e.isStub = false) :
+    encode c dst e buf = genPacket c.address dst t h d buf := by
+  simp [encode, hb, hs]
+
+/-- a successful encoder call: body, size, and the resulting buffer -/
+theorem encode_ok_inv (c : Ctx) (dst : B) (e : Enc) (buf buf' : Bytes) (n : Nat)
+    (h : encode c dst e buf = .ok (buf', n)) :
+    ∃ t hd d, e.body c = .ok (t, hd, d) ∧ e.isStub = false ∧ 1 + optLen hd + d.length ≤ 250 ∧
+      n = 10 + optLen hd + d.length ∧ n ≤ buf.length ∧
+      buf' = packetBytes c.address dst t hd d ++ buf.drop n := by
+  unfold encode at h
+  rcases Out.bind_eq_ok.mp h with ⟨⟨t, hd, d⟩, hb, h2⟩
+  refine ⟨t, hd, d, hb, ?_⟩
+  simp only at h2
+  by_cases hs : e.isStub = true
+  · simp only [hs, if_true] at h2
+    split at h2 <;> simp at h2
+  have hs' : e.isStub = false := by simpa using hs
+  simp only [hs', Bool.false_eq_true, if_false] at h2
+  refine ⟨hs', ?_⟩
+  by_cases hfit : 1 + optLen hd + d.length ≤ 250
+  · by_cases hbuf : 10 + optLen hd + d.length ≤ buf.length
+    · rw [genPacket_ok _ _ _ _ _ _ hfit hbuf] at h2
+      simp only [Out.ok.injEq, Prod.mk.injEq] at h2
+      obtain ⟨rfl, rfl⟩ := h2
+      exact ⟨hfit, rfl, hbuf, rfl⟩
+    · obtain ⟨k, hk⟩ := genPacket_short c.address dst t hd d buf hfit (by omega)
+      rw [hk] at h2; simp at h2
+  · rw [genPacket_oversize _ _ _ _ _ _ (by omega)] at h2; simp at h2
+
+theorem respond_ok (c : Ctx) (dst : B) (e : Enc) (buf : Bytes) (t : MsgType) (h : Option Bytes) (d : Bytes)
+    (hb : e.body c = .ok (t, h, d)) (hs : e.isStub = false)
+    (hfit : 1 + optLen h + d.length ≤ 250) (hbuf : 10 + optLen h + d.length ≤ buf.length) :
+    respond c dst e buf =
+      (c, .ok (10 + optLen h + d.length),
+        packetBytes c.address dst t h d ++ buf.drop (10 + optLen h + d.length)) := by
+  unfold respond
+  rw [encode_of_body c dst e buf t h d hb hs, genPacket_ok _ _ _ _ _ _ hfit hbuf]
+
+/-- `respond` returns a length or panics; it never returns an error value -/
+theorem respond_cases (c : Ctx) (dst : B) (e : Enc) (buf : Bytes) :
+    (∃ n buf', respond c dst e buf = (c, .ok n, buf') ∧ encode c dst e buf = .ok (buf', n)) ∨
+    (∃ k, respond c dst e buf = (c, .panic k, buf)) := by
+  unfold respond
+  cases h : encode c dst e buf with
+  | ok a => exact .inl ⟨a.2, a.1, rfl, rfl⟩
+  | err e => exact .inr ⟨_, rfl⟩
+  | panic k => exact .inr ⟨_, rfl⟩
+
+/-! ### `dispatch`, arm by arm -/
+
+/-- `Cmd.ofByte` as a table: the seven commands `dispatch` has arms for, or a byte ≥ 7 -/
+inductive CmdCase (cmd : B) : Prop
+  | c0 (h : Cmd.ofByte cmd = .reserved) (e : cmd = 0x00#8)
+  | c1 (h : Cmd.ofByte cmd = .setEndpointID) (e : cmd = 0x01#8)
+  | c2 (h : Cmd.ofByte cmd = .getEndpointID) (e : cmd = 0x02#8)
+  | c3 (h : Cmd.ofByte cmd = .getEndpointUUID) (e : cmd = 0x03#8)
+  | c4 (h : Cmd.ofByte cmd = .getMCTPVersionSupport) (e : cmd = 0x04#8)
+  | c5 (h : Cmd.ofByte cmd = .getMessageTypeSupport) (e : cmd = 0x05#8)
+  | c6 (h : Cmd.ofByte cmd = .getVendorDefinedMessageSupport) (e : cmd = 0x06#8)
+  | other (h : 7 ≤ cmd.toNat)
+      (hne : Cmd.ofByte cmd ≠ .reserved ∧ Cmd.ofByte cmd ≠ .setEndpointID ∧ Cmd.ofByte cmd ≠ .getEndpointID ∧
+        Cmd.ofByte cmd ≠ .getEndpointUUID ∧ Cmd.ofByte cmd ≠ .getMCTPVersionSupport ∧
+        Cmd.ofByte cmd ≠ .getMessageTypeSupport ∧ Cmd.ofByte cmd ≠ .getVendorDefinedMessageSupport)
+
+theorem cmdCase_table : ∀ cmd : B,
+    (Cmd.ofByte cmd = .reserved ∧ cmd = 0x00#8) ∨ (Cmd.ofByte cmd = .setEndpointID ∧ cmd = 0x01#8) ∨
+    (Cmd.ofByte cmd = .getEndpointID ∧ cmd = 0x02#8) ∨ (Cmd.ofByte cmd = .getEndpointUUID ∧ cmd = 0x03#8) ∨
+    (Cmd.ofByte cmd = .getMCTPVersionSupport ∧ cmd = 0x04#8) ∨
+    (Cmd.ofByte cmd = .getMessageTypeSupport ∧ cmd = 0x05#8) ∨
+    (Cmd.ofByte cmd = .getVendorDefinedMessageSupport ∧ cmd = 0x06#8) ∨
+    (7 ≤ cmd.toNat ∧ Cmd.ofByte cmd ≠ .reserved ∧ Cmd.ofByte cmd ≠ .setEndpointID ∧ Cmd.ofByte cmd ≠ .getEndpointID ∧
+        Cmd.ofByte cmd ≠ .getEndpointUUID ∧ Cmd.ofByte cmd ≠ .getMCTPVersionSupport ∧
+        Cmd.ofByte cmd ≠ .getMessageTypeSupport ∧ Cmd.ofByte cmd ≠ .getVendorDefinedMessageSupport) := by
+  apply forall_byte; decide +kernel
+
+theorem cmdCase (cmd : B) : CmdCase cmd := by
+  rcases cmdCase_table cmd with h | h | h | h | h | h | h | h
+  · exact .c0 h.1 h.2
+  · exact .c1 h.1 h.2
+  · exact .c2 h.1 h.2
+  · exact .c3 h.1 h.2
+  · exact .c4 h.1 h.2
+  · exact .c5 h.1 h.2
+  · exact .c6 h.1 h.2
+  · exact .other h.1 h.2
+
+variable (c : Ctx) (cmd src : B) (pay : Nat → B) (buf : Bytes)
+
+theorem dispatch_reserved (h : Cmd.ofByte cmd = .reserved) :
+    dispatch c cmd src pay buf = (c, .panic ⟨.unreachable, .smbus⟩, buf) := by
+  unfold dispatch; simp only [h]
+
+theorem dispatch_setEid (h : Cmd.ofByte cmd = .setEndpointID) :
+    dispatch c cmd src pay buf =
+      if pay 0 = 0#8 ∨ pay 0 = 1#8 then
+        respond { c with respEid := pay 1, reqEid := pay 1 } src (.respSetEid 0#8 false 0#8) buf
+      else if pay 0 = 2#8 then (c, .panic ⟨.unimplemented, .smbus⟩, buf)
+      else if pay 0 = 3#8 then respond c src (.respSetEid 2#8 false 0#8) buf
+      else (c, .panic ⟨.unreachable, .smbus⟩, buf) := by
+  unfold dispatch; simp only [h]
+
+theorem dispatch_getEid (h : Cmd.ofByte cmd = .getEndpointID) :
+    dispatch c cmd src pay buf = respond c src (.respGetEid 0#8 0#8 0#8 false) buf := by
+  unfold dispatch; simp only [h]
+
+theorem dispatch_uuid (h : Cmd.ofByte cmd = .getEndpointUUID) :
+    dispatch c cmd src pay buf = respond c src (.respUuid 0#8 c.uuid) buf := by
+  unfold dispatch; simp only [h]
+
+theorem dispatch_version (h : Cmd.ofByte cmd = .getMCTPVersionSupport) :
+    dispatch c cmd src pay buf = respond c src (.respVersion 0#8) buf := by
+  unfold dispatch; simp only [h]
+
+theorem dispatch_msgTypes (h : Cmd.ofByte cmd = .getMessageTypeSupport) :
+    dispatch c cmd src pay buf = respond c src (.respMsgTypes 0#8 c.msgTypes) buf := by
+  unfold dispatch; simp only [h]
+
+/-- the selector the vendor arm stores and reports -/
+def nextSel (c : Ctx) (sel : B) : B :=
+  if sel + 1#8 = BitVec.ofNat 8 c.vendorIds.length then 0xFF#8 else sel + 1#8
+
+theorem dispatch_vendor (h : Cmd.ofByte cmd = .getVendorDefinedMessageSupport) :
+    dispatch c cmd src pay buf =
+      if pay 0 = 0xFF#8 then (c, .panic ⟨.addOverflow, .smbus⟩, buf)
+      else
+        match c.vendorIds[(pay 0).toNat]? with
+        | none => ({ c with selector := nextSel c (pay 0) }, .panic ⟨.indexOOB, .smbus⟩, buf)
+        | some v =>
+          match vendorField v with
+          | some f => respond { c with selector := nextSel c (pay 0) } src (.respVendor 0#8 (nextSel c (pay 0)) f) buf
+          | none => ({ c with selector := nextSel c (pay 0) }, .panic ⟨.unreachable, .smbus⟩, buf) := by
+  unfold dispatch nextSel; simp only [h]; rfl
+
+theorem dispatch_other
+    (hne : Cmd.ofByte cmd ≠ .reserved ∧ Cmd.ofByte cmd ≠ .setEndpointID ∧ Cmd.ofByte cmd ≠ .getEndpointID ∧
+        Cmd.ofByte cmd ≠ .getEndpointUUID ∧ Cmd.ofByte cmd ≠ .getMCTPVersionSupport ∧
+        Cmd.ofByte cmd ≠ .getMessageTypeSupport ∧ Cmd.ofByte cmd ≠ .getVendorDefinedMessageSupport) :
+    dispatch c cmd src pay buf = (c, .panic ⟨.unimplemented, .smbus⟩, buf) := by
+  unfold dispatch
+  split <;> first | (exfalso; simp_all; done) | rfl
+
 end Proc
 end Mctp
